@@ -136,6 +136,6 @@ pub proof fn witness_wf_change() {
     assert(wf_change(&tc));
     assert(survives(&tc, 1) && !survives(&tc, 3) && new_pos(&tc, 6) == 7);
 }
-//~not_decided the callers' side of `unaffected_tail` / `finish_update` inside `lexer::update` (that `partition` yields a prefix, that the reusable tokens are the shifted old ones in order, the re-lex loop and its stop condition) stays outside: nom iterator and `Vec::contains` over `Token: PartialEq`
+//~not_decided (here) the callers' side of `unaffected_tail` / `finish_update`: that `partition` yields a prefix and the reusable tokens are the shifted old ones in order is proved over the whole of `lexer::update` in unit `relex`; the re-lex loop and its stop condition (nom iterator, `Vec::contains`) stay outside
 }
 fn main() {}
